@@ -97,10 +97,11 @@ class FPScalarConstant: public FPScalar
     Variant v(Variant::SCALAR_STRING);
 
     // lets be sure that each integer value is compiled as a double
-    if(m_value - int(m_value) == 0)
+    // (the range test comes first: int() of a value outside the int range is undefined)
+    if(m_value > -2147483647. && m_value < 2147483647. && m_value - int(m_value) == 0)
       v.scalarString() = "(" + ObjToString(int(m_value)) + ".0)";
     else
-      v.scalarString() = m_name /* OLD STYLE can produce undesired integer divisions like "1/8": ObjToString(m_value)*/;
+      v.scalarString() = "((double) " + m_name + ")" /* OLD STYLE can produce undesired integer divisions like "1/8": ObjToString(m_value)*/;
 
     return v;
   }
